@@ -49,10 +49,36 @@ def d_update(ex, st, pos, kw, node, star, dstar):
 
 def l_append(ex, st, pos, kw, node, star, dstar):
     l, v = pos[0], pos[1]
+    st.g.setdefault('list_mutations', []).append((l, 'append'))
     sp = ex.spine(st, l)
     st.set_seq(l, z3.Concat(st.seq(l), z3.Unit(v)))
     if sp is not None:
         a = st._aclass(st.addr_of(l)); st.g['spine'][a[1]] = sp + [v]
+    return val(st, NONE)
+
+
+def l_insert(ex, st, pos, kw, node, star, dstar):
+    l, i, v = pos[0], pos[1], pos[2]; sq = st.seq(l); n = Val.iv(i); ln = z3.Length(sq)
+    j = z3.If(n < 0, z3.If(ln + n < 0, 0, ln + n), z3.If(n > ln, ln, n))
+    sp = ex.spine(st, l); iv_ = z3.simplify(j)
+    st.set_seq(l, z3.Concat(z3.SubSeq(sq, 0, j), z3.Unit(v), z3.SubSeq(sq, j, ln - j)))
+    a = st._aclass(st.addr_of(l))
+    if a[0] == 'new' and sp is not None:
+        if z3.is_int_value(iv_): st.g['spine'][a[1]] = sp[:iv_.as_long()] + [v] + sp[iv_.as_long():]
+        else: st.g['spine'].pop(a[1], None)
+    st.g.setdefault('list_mutations', []).append((l, 'insert'))
+    return val(st, NONE)
+
+
+def l_extend(ex, st, pos, kw, node, star, dstar):
+    l, o = pos[0], pos[1]
+    if not ex.is_kind(st, o, 'list', 'tuple'): raise Unsupported('list.extend with a value of unknown kind')
+    spa, spb = ex.spine(st, l), ex.spine(st, o)
+    st.set_seq(l, z3.Concat(st.seq(l), st.seq(o))); a = st._aclass(st.addr_of(l))
+    if a[0] == 'new':
+        if spa is not None and spb is not None: st.g['spine'][a[1]] = spa + spb
+        else: st.g.get('spine', {}).pop(a[1], None)
+    st.g.setdefault('list_mutations', []).append((l, 'extend'))
     return val(st, NONE)
 
 
@@ -83,7 +109,7 @@ def rnd_random(ex, st, pos, kw, node, star, dstar):
 
 def install(ex):
     M = {('dict', 'get'): d_get, ('dict', 'pop'): d_pop, ('dict', 'keys'): d_view('dictkeys'), ('dict', 'items'): d_view('dictitems'),
-         ('dict', 'values'): d_view('dictvalues'), ('dict', 'update'): d_update, ('list', 'append'): l_append,
+         ('dict', 'values'): d_view('dictvalues'), ('dict', 'update'): d_update, ('list', 'append'): l_append, ('list', 'insert'): l_insert, ('list', 'extend'): l_extend,
          ('Random', 'random'): rnd_random}
     for (c, m), f in M.items():
         engine.OBJMETHODS.add((c, m)); ex.lib['%s.%s' % (c, m)] = f
